@@ -276,6 +276,7 @@ static std::string resolve_path(const std::string& sel) {
     if (sel.rfind("@toklock:", 0) == 0) { auto it = g_tokdir.find(sel.substr(9)); return it == g_tokdir.end() ? "" : it->second + "/token.lock"; }
     if (sel.rfind("@tokdir:", 0) == 0) { auto it = g_tokdir.find(sel.substr(8)); return it == g_tokdir.end() ? "" : it->second; }
     if (sel == "@conf") return "/sim/softhsm2.conf";
+    if (sel.rfind("@newfile:", 0) == 0) { size_t c2 = sel.find(':', 9); if (c2 == std::string::npos) return ""; auto it = g_tokdir.find(sel.substr(9, c2 - 9)); return it == g_tokdir.end() ? "" : it->second + "/" + sel.substr(c2 + 1); }
     return sel;
 }
 
@@ -296,6 +297,7 @@ static J do_corrupt(const J& op) {
     out.set("path", path);
     const J& how = op["how"]; std::string k = how["k"].str();
     if (path.empty()) { out.set("skipped", "unresolved"); return out; }
+    if (k == "noop") { out.set("done", false); return out; }
     if (k == "write") { g_fs.put_file(path, fromhex(how["hex"].str()), 0600); out.set("done", true); return out; }
     InodeP par; std::string leaf; InodeP f = g_fs.lookup(path, &par, &leaf);
     if (!f || f->isdir) { out.set("skipped", "missing"); return out; }
@@ -560,6 +562,7 @@ static J exec_call(Ctx& c, const J& op) {
     return out;
 }
 
+static InodeP g_fs_backup;
 static J exec_act(Ctx& c, const J& op) {
     const std::string a = op["act"].str(); J out = J::obj(); CK_RV rv = 0;
     auto F = c.P->fl;
@@ -621,6 +624,9 @@ static J exec_act(Ctx& c, const J& op) {
         if (d && par && !dir.empty()) { par->ents.erase(leaf); par->order.erase(std::remove(par->order.begin(), par->order.end(), leaf), par->order.end()); out.set("done", true); }
         return out;
     }
+    if (a == "fsbackup") { g_fs_backup = g_fs.clone_tree(g_fs.root); return out; }
+    if (a == "fsrestore_conf") { if (g_fs_backup) { InodeP save = g_fs.root; g_fs.root = g_fs_backup; InodeP f = g_fs.lookup("/sim/softhsm2.conf"); g_fs.root = save; if (f && f->data) { g_fs.put_file("/sim/softhsm2.conf", *f->data, 0644); out.set("done", true); } } return out; }
+    if (a == "fsrestore") { if (g_fs_backup) { g_fs.root = g_fs.clone_tree(g_fs_backup); out.set("done", true); } return out; }
     if (a == "secret") { mon_register_disk_secret(fromhex(op["hex"].str()), op["label"].str("s")); return out; }
     if (a == "setfaults") { // (re)arm sticky environment, e.g. disk full from now on
         return out; }
